@@ -37,7 +37,8 @@ fn main() {
         std::process::exit(checks::c16::first_use_child(ch));
     }
     if id == "C13-first" {
-        std::process::exit(checks::c13::first_child(args[2].parse().unwrap()));
+        let h: Vec<usize> = args[2].split(',').filter_map(|x| x.parse().ok()).collect();
+        std::process::exit(checks::c13::first_child(&h));
     }
     if id == "C05-one" {
         let mut st = engine::Stats::default();
